@@ -128,6 +128,15 @@ fn gen(a: &Args) {
         for op in ["fp", "fprec", "fpsel"] {
             o.op(&format!("{} {} {} {} {}", op, s, nh, mol, tr));
         }
+        // compatibility decisions go through the reported value: an (empty) sketch created at s must
+        // refuse a sketch created at t != s and still report s afterwards, and accept t = s
+        let t = match r.below(4) {
+            0 => s,
+            1 => s + 1,
+            2 => s.saturating_sub(1).max(1),
+            _ => r.range(1, 1 << 31),
+        };
+        o.op(&format!("compat {} {}", s, t));
     }
     // stream 4: what is made FROM a sketch created at s reports s too
     o.case("conversions-of-sketches");
@@ -555,6 +564,35 @@ fn step(st: &mut Vec<Signature>, ws: &[&str]) -> String {
                 (Ok(d), Ok(dt)) if d.scaled() == dt.scaled() => d.scaled().to_string(),
                 (Ok(d), Ok(dt)) => format!("vec {} tree {}", d.scaled(), dt.scaled()),
                 (a, b) => format!("err {:?} {:?}", a.err(), b.err()),
+            }
+        }
+        "compat" => {
+            let (a, b) = (n(1), n(2));
+            let mut out = vec![];
+            {
+                let mut x = KmerMinHash::new(a, 21, HashFunctions::Murmur64Dna, 42, false, 0);
+                let mut y = KmerMinHash::new(b, 21, HashFunctions::Murmur64Dna, 42, false, 0);
+                y.add_hash(1);
+                let r = x.merge(&y);
+                out.push(match r {
+                    Ok(()) => format!("ok {}", x.scaled()),
+                    Err(e) => format!("err {} {}", format!("{:?}", e).split(|c: char| !c.is_alphanumeric()).next().unwrap_or(""), x.scaled()),
+                });
+            }
+            {
+                let mut x = KmerMinHashBTree::new(a, 21, HashFunctions::Murmur64Dna, 42, false, 0);
+                let mut y = KmerMinHashBTree::new(b, 21, HashFunctions::Murmur64Dna, 42, false, 0);
+                y.add_hash_with_abundance(1, 1);
+                let r = x.merge(&y);
+                out.push(match r {
+                    Ok(()) => format!("ok {}", x.scaled()),
+                    Err(e) => format!("err {} {}", format!("{:?}", e).split(|c: char| !c.is_alphanumeric()).next().unwrap_or(""), x.scaled()),
+                });
+            }
+            if out[0] == out[1] {
+                out[0].clone()
+            } else {
+                format!("vec {} tree {}", out[0], out[1])
             }
         }
         "seln" => {
